@@ -342,6 +342,10 @@ def mapping_docs(ctx, prefix, case, built, mapdim, docs, src):
 
 def run(ctx: C.Ctx):
     v1streams.run_streams(ctx, run_default, run_v1)
+    # the dump side of this property (catch-all items written back at top level / the tag entry) at the level of the generated
+    # code: generator model text == generated source, Lean interpreter of that text == the real result (harness/props/c11_gencode.py)
+    from . import c11_gencode
+    c11_gencode.run(ctx)
 
 
 def run_default(ctx: C.Ctx):
